@@ -463,6 +463,7 @@ func c14RoutersHandOnTheReceivedStart(c *cx, id string) {
 func c14Handler(c *cx) {
 	id := "C14.2"
 	c14RoutersHandOnTheReceivedStart(c, "C14.13")
+	c14TypeValuesExact(c, "C14.14")
 	f := c.fn(id, "mux", "(*ServeMux).Handler")
 	if f == nil {
 		return
@@ -1106,4 +1107,34 @@ func c14DispatchThroughTable(c *cx, id string) {
 		c.r.Check(id, f, "dispatch", "K: every return of ServeMux.HandleXMPP is the HandleXMPP of the handler that ServeMux.Handler(start.Name) returned", rs.Pos(), eng.Glob("*HandleXMPP[mux.ServeMux.Handler[recv](p1.Name)#0](p0,p1)", got), "returns "+got)
 	}
 	c.r.Floor(id, "returns of ServeMux.HandleXMPP", n, 1)
+}
+
+// c14TypeValuesExact (C14.14): the type a stanza is dispatched on is the value
+// of its type attribute, compared as it was written: RFC 6121 defines the
+// values in lower case and says that anything else is treated as the default
+// (type="Chat" is a normal message). The attribute decoders of the stanza type
+// enumerations switch on the attribute value itself - not on a lower-cased or
+// trimmed copy, which would route a message to the handlers of a type it does
+// not have.
+func c14TypeValuesExact(c *cx, id string) {
+	n := 0
+	for _, f := range c.allFns() {
+		if f.Decl == nil || f.Decl.Recv == nil || f.Decl.Name.Name != "UnmarshalXMLAttr" || !strings.HasPrefix(f.Short, "stanza.") {
+			continue
+		}
+		f.WalkBody(func(nd ast.Node) bool {
+			sw, ok := nd.(*ast.SwitchStmt)
+			if !ok || sw.Tag == nil {
+				return true
+			}
+			tag := f.Norm(sw.Tag, nil)
+			if !strings.Contains(tag, "p0.Value") {
+				return true
+			}
+			n++
+			c.r.Check(id, f, "value the type is decided on", "P: the switch is over the attribute value itself", sw.Pos(), tag == "p0.Value", "the switch is over "+tag)
+			return true
+		})
+	}
+	c.r.Floor(id, "type attribute decoders in package stanza", n, 1)
 }
